@@ -7,6 +7,7 @@ import traceback
 
 MODULES = {
     "C18": "check_cache", "C19": "check_cache",
+    "C20": "check_c20",
 }
 
 
